@@ -466,11 +466,39 @@ func mergeStats(a, b *PathStats) {
 	}
 }
 
+// revalidate re-runs the single path of a counterexample with every input
+// pinned to the recorded value and reports whether the same violation is
+// derived again (used for harnesses whose environment models have no native
+// counterpart; it re-checks the engine's path replay and the solver's model,
+// not the models themselves).
+func (e *Engine) revalidate(h *HarnessCfg, v *Violation) (bool, string) {
+	fn := e.findFunc(h.Func)
+	if fn == nil {
+		return false, "harness function not found"
+	}
+	solver, err := NewSolver(primarySolver, nil, e.timeoutMs)
+	if err != nil {
+		return false, err.Error()
+	}
+	defer solver.Close()
+	p, endKind, endMsg := e.runPathPinned(h, fn, v.Trace, solver, v.Inputs)
+	for _, w := range p.violations {
+		if w.Kind == v.Kind && w.Tag == v.Tag && w.Site == v.Site {
+			return true, "re-derived with all inputs pinned to the counterexample"
+		}
+	}
+	return false, "not re-derived (path end: " + endKind + " " + endMsg + ")"
+}
+
 func (e *Engine) runPath(h *HarnessCfg, fn *ssa.Function, prefix []int, solver *Solver) (p *Path, endKind, endMsg string) {
+	return e.runPathPinned(h, fn, prefix, solver, nil)
+}
+
+func (e *Engine) runPathPinned(h *HarnessCfg, fn *ssa.Function, prefix []int, solver *Solver, pin []InputRec) (p *Path, endKind, endMsg string) {
 	tc := NewTermCtx()
 	solver.ctx = tc
 	solver.Reset()
-	p = &Path{eng: e, h: h, tc: tc, solver: solver, prefix: prefix,
+	p = &Path{eng: e, h: h, tc: tc, solver: solver, prefix: prefix, pin: pin,
 		globals: map[*ssa.Global]*Object{}, initRun: map[*ssa.Package]bool{}}
 	p.st.Funcs = map[string]int{}
 	p.st.Reached = map[string]bool{}
